@@ -8,6 +8,7 @@ pub mod props;
 pub mod refcodec;
 pub mod refregion;
 pub mod script;
+pub mod snapshot;
 pub mod world;
 
 use simcore::*;
